@@ -470,7 +470,13 @@ Definition is_blocked (tk : task) (s : st) : bool :=
 
 Definition pop_task (s : st) : st := with_tasks s (tl (tasks s)).
 
-Definition reset_sched (s : st) : st := with_active (with_tasks (with_sb s []) []) None.
+(* TaskScheduler.reset() as used by the MAX_TASK_STACK_SIZE guard (scheduler.py 93-101): the task stack and the set of
+   scheduled batches are emptied; the active task found by the guard is kept (its code keeps running once it has
+   received the RuntimeError) *)
+Definition reset_sched (s : st) : st := with_tasks (with_sb s []) [].
+
+(* the end of wait_for (scheduler.py 70-77): when the outermost wait is over, no scheduled batch is kept *)
+Definition drop_sb (s : st) : st := match tasks s with [] => with_sb s [] | _ => s end.
 
 Definition tk_set_ds (tk : task) (b : bool) : task :=
   mkTask (tk_gen tk) (tk_last tk) (tk_deps tk) (tk_ctxs tk) (tk_cact tk) b (tk_iter tk) (tk_next tk).
@@ -497,14 +503,14 @@ Definition step (P : params) (c : cfg) : cfg :=
   | MWaitHead =>
     match fr with
     | FWait root :: fr' =>
-      if computed root s then mkC (MDeliver (outcome_of root s)) fr' s
+      if computed root s then mkC (MDeliver (outcome_of root s)) fr' (drop_sb s)
       else mkC MExecLoop (FExec (length (tasks s)) :: fr) (with_tasks s (root :: tasks s))
     | _ => mkC MStuck fr s
     end
   | MAfterExec =>
     match fr with
     | FWait root :: fr' =>
-      if computed root s then mkC (MDeliver (outcome_of root s)) fr' s
+      if computed root s then mkC (MDeliver (outcome_of root s)) fr' (drop_sb s)
       else mkC MWaitHead fr (continue_with_batch P s)
     | _ => mkC MStuck fr s
     end
